@@ -19,6 +19,7 @@ from ast import (
 from collections import OrderedDict
 from functools import partial
 from itertools import chain
+from os import path
 from textwrap import indent
 
 from black import Mode, format_str
@@ -560,6 +561,12 @@ def file(node, filename, mode="a", skip_black=False):
                 string_normalization=False,
             ),
         )
+    if "a" in mode and path.isfile(filename):
+        # Don't glue onto an unterminated last line
+        with open(filename, "rt") as f:
+            existing = f.read()
+        if existing and not existing.endswith("\n"):
+            src = "\n{src}".format(src=src)
     with open(filename, mode) as f:
         f.write(src)
 
